@@ -54,14 +54,82 @@ def space_sig(env):
     )
 
 
-def lockstep(a, b, seeds, depth, limit=None):
+def probe_spaces(a, b):
+    """the two environments' membership predicates must agree on probe states/observations (agent holding each
+    declared object, an undeclared object, agent outside)"""
+    from gym_gridverse.grid_object import Beacon, Key, MovingObstacle, Telepod, Wall, Color
+
+    for e in (a, b):
+        e.set_seed(0)
+    sa = a.functional_reset()
+    for held in (None, Key(Color.YELLOW), Key(Color.RED), Wall(), Beacon(Color.RED), Telepod(Color.RED), MovingObstacle()):
+        st = envs_copy(sa)
+        if held is not None:
+            st.agent.grid_object = held
+        ca, cb = a.state_space.contains(st), b.state_space.contains(st)
+        if ca != cb:
+            return f'state spaces disagree on a state whose agent holds {type(held).__name__}: built {ca}, hand-assembled {cb}'
+        oa, ob = a._observation_function(st, rng=ChoiceRng([])), b._observation_function(st, rng=ChoiceRng([]))
+        ca, cb = a.observation_space.contains(oa), b.observation_space.contains(ob)
+        if ca != cb:
+            return f'observation spaces disagree on an observation whose agent holds {type(held).__name__}'
+    return None
+
+
+def envs_copy(state):
+    from gym_gridverse.utils.fast_copy import fast_copy
+
+    return fast_copy(state)
+
+
+def directed_sequences(env, seed):
+    """shortest action paths from the seeded initial state to every reachable cell, each followed by the object actions"""
+    from collections import deque
+
+    from .. import refmodel as R
+
+    env.set_seed(seed)
+    env._state = env._observation = None
+    env.reset()
+    s0 = sdesc(env.state)
+    allowed = [x for x in env.action_space.actions]
+    nav = [x for x in allowed if x.name.startswith(('MOVE', 'TURN'))]
+    start = (s0[1], s0[2], s0[3])
+    paths = {start: []}
+    dq = deque([start])
+    while dq:
+        p = dq.popleft()
+        for act in nav:
+            st = (s0[0], p[0], p[1], p[2], s0[4])
+            nx = R.ref_turn_agent(R.ref_move_agent(st, act.name), act.name)
+            q = (nx[1], nx[2], nx[3])
+            if q not in paths:
+                paths[q] = paths[p] + [act]
+                dq.append(q)
+    extra = [x for x in allowed if x.name in ('PICK_N_DROP', 'ACTUATE')]
+    out = []
+    for q, path in paths.items():
+        if extra:
+            out.append(tuple(path + extra + nav[:1]))
+        elif q[2] == 'F':
+            out.append(tuple(path + nav[:1]))
+    return out
+
+
+def lockstep(a, b, seeds, depth, limit=None, directed=False):
     """message if the two inner environments differ on spaces or on any action sequence up to `depth`"""
     if space_sig(a) != space_sig(b):
         return f'spaces differ: {space_sig(a)} vs {space_sig(b)}'
+    m = probe_spaces(a, b)
+    if m:
+        return m
     acts = list(a.action_space.actions)
     n = 0
     for sd in seeds:
-        for seq in itertools.product(acts, repeat=depth):
+        seqs = list(itertools.product(acts, repeat=depth))
+        if directed:
+            seqs += directed_sequences(a, sd)
+        for seq in seqs:
             n += 1
             if limit and n > limit:
                 return None
@@ -114,7 +182,7 @@ def judge_config(path, depth, seeds):
         hand = ASM.assemble(copy.deepcopy(before))
     except ASM.AssembleError as e:
         return f'INTERNAL: hand-assembler rejects a shipped configuration: {e}'
-    m = lockstep(built, hand, seeds, depth)
+    m = lockstep(built, hand, seeds, depth, directed=True)
     if m:
         return f'built environment differs from the hand-assembled one: {m}'
     m = lockstep(built2, hand, seeds[:1], depth)
@@ -266,6 +334,13 @@ def mutations(tree):
             yield 'objects empty', path, with_value(tree, path, [])
         if key == 'object_type' and isinstance(node, str):
             yield 'object_type unknown', path, with_value(tree, path, 'Lava')
+        if path and path[0] not in ('state_space', 'observation_space', 'action_space') and key not in ('shape', 'layout', 'area') \
+                and isinstance(node, (int, float)) and not isinstance(key, int):
+            zero = False if isinstance(node, bool) else (0.0 if isinstance(node, float) else 0)
+            if node != zero or isinstance(node, bool) != isinstance(zero, bool):
+                yield f'zero value {key}', path, with_value(tree, path, zero)
+            if isinstance(node, bool):
+                yield f'flip value {key}', path, with_value(tree, path, not node)
         if key == 'distance_function':
             yield 'distance unknown', path, with_value(tree, path, 'chebyshev')
 
@@ -409,6 +484,28 @@ def judge_registry(kind, fname):
         want_req = call_component(kind, lambda *a, **k: fn(*a, **{x: kw[x] for x in required}, **k), inp)
         if call_component(kind, f_req, inp) != want_req:
             return n, f'factory({fname!r}) with only required parameters differs from the function with its defaults'
+    # falsy parameter values are values too (0, 0.0, False must reach the component, not be replaced by defaults)
+    falsy = dict(kw)
+    changed = False
+    for p in params:
+        v = kw[p.name]
+        if isinstance(v, bool):
+            falsy[p.name], changed = False, True
+        elif isinstance(v, float):
+            falsy[p.name], changed = 0.0, True
+        elif isinstance(v, int) and p.name in ('num_obstacles', 'threshold'):
+            falsy[p.name], changed = 0, True
+    if changed:
+        try:
+            f_falsy = factory(fname, **falsy)
+        except Exception as e:  # noqa: BLE001
+            return n, f'factory({fname!r}) with zero/False parameter values raised {type(e).__name__}: {e}'
+        for inp in probe_inputs(kind):
+            n += 1
+            want = call_component(kind, lambda *a, **k: fn(*a, **falsy, **k), inp)
+            if call_component(kind, f_falsy, inp) != want:
+                shown = {k: v for k, v in falsy.items() if isinstance(v, (bool, int, float))}
+                return n, f'factory({fname!r}, **kw) with zero/False values {shown} behaves differently from {fname}(**kw)'
     for r in required:
         n += 1
         try:
@@ -483,7 +580,7 @@ def run(rep, tier, seed):
         fails.extend(fl)
     rep.part('corruptions', mutations=mn, expected_rejections=mrej, expected_builds=mn - mrej,
              operators=['delete key', 'unknown component', '7 shape malformations', '4 colour malformations', '3 action malformations',
-                        'unknown object / empty objects', 'unknown object_type', 'unknown distance function'])
+                        'unknown object / empty objects', 'unknown object_type', 'unknown distance function', 'zero/False value of every numeric parameter', 'flipped boolean'])
     rn = 0
     nreg = 0
     for kind, (registry, _) in REGISTRIES.items():
